@@ -36,9 +36,22 @@ fn bounded_host(t: &mut Tape) -> (String, String, String) {
   head.push_str("class Feet(val v: int) : Conv<Meters> {\n  function of(v: int): Feet = Feet.init(v)\n\n  method conv(): Meters = Meters.init(this.v * 3)\n}\n\n");
   head.push_str("class Meters(val v: int) : Conv<Feet> {\n  function of(v: int): Meters = Meters.init(v)\n\n  method conv(): Feet = Feet.init(this.v + 1)\n}\n\n");
   head.push_str(&format!("class Rel{tparams}(val a: A, val b: B) {{\n  method left(): A = this.a\n\n  method converted(): B = this.a.conv()\n}}\n\n"));
+  head.push_str("class Crate<T>(Hollow, Full(T)) {\n  function <T> count(c: Crate<T>): int = 0\n}\n\n");
   head.push_str(&format!("class Main {{\n  function {tparams} mk(a: A, b: B): B = a.conv()\n\n  function <T> id(x: T): T = x\n\n  function <T> app(x: T, f: (T) -> T): T = f(x)\n\n  function main(): unit = {{\n"));
   let tail = "  }\n}\n";
   let (ax, by) = (format!("{x}.of({})", 1 + t.choose(9)), format!("{y}.of({})", 1 + t.choose(9)));
+  // a type argument that nothing determines (`Crate.Hollow()` alone) inside an argument of an implicitly
+  // instantiated call: "not enough context" in every spelling
+  if t.bool(1, 5) {
+    let inner = "Crate.count(Crate.Hollow())";
+    let (b, a, what) = match t.choose(3) {
+      0 => (format!("    let m = Main.id({inner});\n"), format!("    let m = Main.id<int>({inner});\n"), "explicit-type-arguments(outer call, undetermined type argument inside)"),
+      1 => (format!("    let m = Main.id({inner});\n"), format!("    let m = Main.id({{ {inner} }});\n"), "wrap-in-block(undetermined type argument inside)"),
+      _ => (format!("    let m = Main.app(1, (v: int) -> {inner});\n"), format!("    let m = Main.app<int>(1, (v: int) -> {inner});\n"), "explicit-type-arguments(outer call, undetermined type argument in lambda body)"),
+    };
+    let use_m = "    let _ = Process.println(Str.fromInt(m));\n";
+    return (format!("{head}{b}{use_m}{tail}"), format!("{head}{a}{use_m}{tail}"), format!("{what}/{shape}/rejected-host"));
+  }
   // a violated bound (B instantiated with the class of `x`, which does not convert to itself) reached
   // through implicit instantiation inside an argument of another implicitly instantiated call: rejected
   // in every spelling
